@@ -20,3 +20,21 @@ with warnings.catch_warnings():
         def evaluate(self) -> sp.Expr:
             a, b = self.args
             return a**2 + sp.sqrt(b)
+
+
+# A class built with the public @unevaluated decorator whose non-SymPy field is declared *between* SymPy fields (what a
+# user gets by subclassing a library class with a trailing `name` attribute and adding an argument): the library's own
+# classes all declare their non-SymPy fields last, so the argument layout of __getnewargs__/__new__ is only exercised here.
+from typing import Any  # noqa: E402
+
+from ampform.sympy import argument, unevaluated  # noqa: E402
+
+
+@unevaluated
+class InterleavedExpr(sp.Expr):
+    x: Any
+    tag: str = argument(default="t", sympify=False)
+    y: Any = sp.Integer(3)
+
+    def evaluate(self) -> sp.Expr:
+        return self.x**2 + sp.sqrt(self.y)
